@@ -89,11 +89,32 @@ fn from_euler<S: Sc>(case: &Case, ck: &mut Ck<S>) {
 /// 2: real-valued ladder around |sin y| = 0.998 (normalised in the engine)
 fn g_extract(rng: &mut Rng, tier: Tier) -> Case {
     let mut c = Case::new();
-    let fam = match rng.below(10) {
+    let fam = match rng.below(12) {
         0..=3 => 0,
         4..=6 => 1,
-        _ => 2,
+        7..=9 => 2,
+        _ => 3,
     };
+    if fam == 3 {
+        // small rotations about two or three axes at once (each angle 4 atan(p/k), about
+        // 3e-3 .. 3e-2 rad): exact rational half-angle points, read like family 1
+        c.push_k(&[1]);
+        c.class = 3;
+        let mut small = |rng: &mut Rng| {
+            let (p, k) = (rng.range(1, 2), rng.range(300, 1200));
+            let den = k * k + p * p;
+            let sgn = if rng.bool() { 1 } else { -1 };
+            if rng.chance(1, 6) {
+                [cgv_core::sc::Rat::int(1), cgv_core::sc::Rat::int(0)]
+            } else {
+                [cgv_core::sc::Rat::new(k * k - p * p, den), cgv_core::sc::Rat::new(sgn * 2 * k * p, den)]
+            }
+        };
+        let (hx, hy, hz) = (small(rng), small(rng), small(rng));
+        c.push_r(&hx).push_r(&hy).push_r(&hz);
+        c.nontrivial = true;
+        return c;
+    }
     c.push_k(&[fam]);
     match fam {
         0 => {
@@ -333,12 +354,62 @@ pub fn native_equal_product(cfg: &cgv_core::fw::RunCfg, extra: &mut cgv_core::fw
     acc.finish(extra, "the crate's own from_angle_x * from_angle_y * from_angle_z on the same native type; allowance 512 eps per element");
 }
 
+/// Euler <-> mint::EulerAngles<_, IntraXYZ>: a, b, c are x, y, z, in both directions (value-exact).
+pub fn native_mint(_cfg: &cgv_core::fw::RunCfg, extra: &mut cgv_core::fw::Extra) {
+    use serde_json::json;
+    let mut bad: Option<String> = None;
+    let mut n = 0u64;
+    macro_rules! one {
+        ($T:ty, $A:ident) => {{
+            let e = Euler::new($A(1.25 as $T), $A(-2.5 as $T), $A(3.75 as $T));
+            // the only usable instantiation has the angle type itself as mint's scalar
+            let m: mint::EulerAngles<$A<$T>, mint::IntraXYZ> = e.into();
+            n += 2;
+            if [m.a.0, m.b.0, m.c.0] != [1.25 as $T, -2.5 as $T, 3.75 as $T] && bad.is_none() {
+                bad = Some(format!("Euler<{}<{}>>{{x:1.25,y:-2.5,z:3.75}} -> mint::EulerAngles gives a,b,c = {:?}", stringify!($A), stringify!($T), [m.a.0, m.b.0, m.c.0]));
+            }
+            let back: Euler<$A<$T>> = mint::EulerAngles::<$A<$T>, mint::IntraXYZ>::from([$A(0.5 as $T), $A(1.5 as $T), $A(-0.75 as $T)]).into();
+            if [back.x.0, back.y.0, back.z.0] != [0.5 as $T, 1.5 as $T, -0.75 as $T] && bad.is_none() {
+                bad = Some(format!("mint::EulerAngles{{a:0.5,b:1.5,c:-0.75}} -> Euler<{}<{}>> gives x,y,z = {:?}", stringify!($A), stringify!($T), [back.x.0, back.y.0, back.z.0]));
+            }
+        }};
+    }
+    one!(f32, Rad);
+    one!(f64, Rad);
+    one!(f32, Deg);
+    one!(f64, Deg);
+    // Euler is documented as #[repr(C)] with fields x, y, z: a [pitch, yaw, roll] triple in a C
+    // buffer reads back in that order, and so does the positional (sequence) serde form
+    {
+        let e = Euler::new(Rad(1.25f32), Rad(-2.5f32), Rad(3.75f32));
+        n += 2;
+        if std::mem::size_of::<Euler<Rad<f32>>>() == 12 {
+            let raw: [f32; 3] = unsafe { std::mem::transmute_copy(&e) };
+            if raw != [1.25, -2.5, 3.75] && bad.is_none() {
+                bad = Some(format!("Euler<Rad<f32>>{{x:1.25,y:-2.5,z:3.75}} lies in memory as {raw:?} (documented #[repr(C)], fields x, y, z)"));
+            }
+        }
+        let pos: Result<Euler<Rad<f64>>, _> = serde_json::from_value(json!([0.5, 1.5, -0.75]));
+        if let Ok(p) = pos {
+            if [p.x.0, p.y.0, p.z.0] != [0.5, 1.5, -0.75] && bad.is_none() {
+                bad = Some(format!("the sequence [0.5, 1.5, -0.75] deserializes to Euler {{ x: {}, y: {}, z: {} }}", p.x.0, p.y.0, p.z.0));
+            }
+        }
+    }
+    extra.evaluations += n;
+    extra.sections.insert("mint_euler_angles".into(), json!({"conversions_checked": n, "oracle": "a, b, c = x, y, z exactly, both directions"}));
+    if let Some(msg) = bad {
+        extra.violations.push(("native_mint_euler".into(), msg.clone(), json!({"message": msg})));
+    }
+}
+
 pub fn native(cfg: &cgv_core::fw::RunCfg, extra: &mut cgv_core::fw::Extra) {
     cgv_core::twins::c07(cfg, extra);
     native_equal_product(cfg, extra);
+    native_mint(cfg, extra);
 }
 
-pub const RULE: &str = "from_euler: angle triples (one third Deg) on a 2^-20 grid in [-4pi,4pi] / [-400,400] degrees plus special values, non-trivial when the three angles are non-zero and distinct. extract: family 0 arbitrary rational unit quaternions; family 1 exact rational quaternions of Rx(a)Ry(b)Rz(c) with tan(b/4) = p/k near tan(pi/8) so that |sin b| lies in roughly [0.97,1] on both sides of 0.998 and at the poles; family 2 real-valued ladder |sin y| = 0.998 -+ r*10^-k (k=1..9) normalised inside the engine. The zone (|sin y| <= 0.998 or not) is decided by the model's own M[2][0]; cases where the enclosure cannot separate it from 0.998 demand nothing. Distinct = distinct input tuples.";
+pub const RULE: &str = "from_euler: angle triples (one third Deg) on a 2^-20 grid in [-4pi,4pi] / [-400,400] degrees plus special values, non-trivial when the three angles are non-zero and distinct. extract: family 0 arbitrary rational unit quaternions; family 1 exact rational quaternions of Rx(a)Ry(b)Rz(c) with tan(b/4) = p/k near tan(pi/8) so that |sin b| lies in roughly [0.97,1] on both sides of 0.998 and at the poles; family 2 real-valued ladder |sin y| = 0.998 -+ r*10^-k (k=1..9) normalised inside the engine; family 3 exact rational quaternions of small rotations (3e-3..3e-2 rad) about two or three axes at once. The zone (|sin y| <= 0.998 or not) is decided by the model's own M[2][0]; cases where the enclosure cannot separate it from 0.998 demand nothing. Distinct = distinct input tuples.";
 pub const ASSUME: &[&str] = &[
     "enclosure arithmetic as in C06; asin/atan2 of glibc within 4 ulp",
     "range membership is judged against pi widened by 2 ulp at Iv and against the f64 constants PI, FRAC_PI_2 on the native run",
